@@ -26,7 +26,7 @@ LAGS = [0, 0, 0, 1, 2, "never"]
 
 
 def trace_cfg(pid):
-    return ("SPECIFICATION TSpec\nCONSTANTS\n  Slots = {1,2,3,4,5,6,7,8}\n  Enis = {1,2,3,4,5,6,7,8,9}\n  Enforce = {\"%s\"}\n"
+    return ("SPECIFICATION TSpec\nCONSTANTS\n  Slots = {1,2,3,4,5,6,7,8,9,10,11,12}\n  Enis = {1,2,3,4,5,6,7,8,9,10,11,12,13,14,15,16}\n  Enforce = {\"%s\"}\n"
             "CONSTRAINT Inv%s\nCONSTRAINT HighWater\nINVARIANT NotAccepted\nPOSTCONDITION Report\nCHECK_DEADLOCK FALSE\n" % (pid, pid))
 
 
